@@ -577,20 +577,23 @@ Proof.
   - eapply Permutation_in; [apply Permutation_sym, Hperm|exact Hin].
 Qed.
 
-(* CreateOffer numbers an unnumbered transceiver from greaterMid, which looks at
-   the current remote description and at transceivers earlier in the list only:
-   with a pending remote offer whose mid "0" was given to a later transceiver,
-   two transceivers end up with mid "0" *)
+(* Before the repair of CreateOffer's numbering loop (fix commit recorded under
+   C06: the loop looked at the current remote description and at transceivers
+   earlier in the list only) this history left two transceivers with mid "0": a
+   pending remote offer gives mid "0" to a later transceiver, then CreateOffer
+   numbers the earlier, unnumbered one.  The loop now first raises greaterMid over
+   the current and the pending remote description and over every transceiver: the
+   unnumbered transceiver receives "1". *)
 Definition dup_mid_history : list op :=
   [OAddTcvKind Audio (Some Recvonly) {| i_trk := {| k_id := ""; k_stream := ""; k_rid := "" |};
                                          i_ssrc := 0; i_rtx := 0; i_fec := 0 |};
    OSetRemote TOffer [{| sc_mid := Some "0"; sc_media := MVideo; sc_dir := Some Sendrecv; sc_attrs := [] |}]
               {| rtx_audio := false; rtx_video := false; fec_audio := false; fec_video := false |}].
 
-Lemma dup_mid_refuted :
+Lemma dup_mid_repaired :
   exists p' d fx,
     create_offer (run_ops (pc_init false) dup_mid_history) = (p', ok_desc d, fx)
-    /\ map t_mid (p_tcvs p') = ["0"; "0"].
+    /\ map t_mid (p_tcvs p') = ["1"; "0"].
 Proof.
   destruct (create_offer (run_ops (pc_init false) dup_mid_history)) as [[p' o] fx] eqn:E.
   vm_compute in E. inversion E; subst. eexists _, _, _. split; reflexivity.
